@@ -407,3 +407,152 @@ Proof.
   pose proof (check_R _ _ _ _ _ _ _ R0 Hc1) as HR.
   rewrite (r_meta _ _ _ HR). destruct (meta_exists c1); discriminate.
 Qed.
+
+(* ---- the fs-layer model obeys the discipline ------------------------------- *)
+Lemma h_get_set_same : forall s b h, h_get s (h_set s b h) = Some b.
+Proof. intros. unfold h_set. cbn [h_get]. rewrite N.eqb_refl. reflexivity. Qed.
+Lemma h_get_del_other : forall s x h, x <> s -> h_get x (h_del s h) = h_get x h.
+Proof.
+  intros s x h Hne. induction h as [|[s' b] h IH]; cbn [h_del h_get]; [reflexivity|].
+  destruct (s' =? s) eqn:E.
+  - apply N.eqb_eq in E. subst s'. rewrite IH.
+    destruct (s =? x) eqn:E2; [apply N.eqb_eq in E2; congruence|reflexivity].
+  - cbn [h_get]. rewrite IH. reflexivity.
+Qed.
+Lemma h_get_set_other : forall s x b h, x <> s -> h_get x (h_set s b h) = h_get x h.
+Proof.
+  intros. unfold h_set. cbn [h_get]. destruct (s =? x) eqn:E; [apply N.eqb_eq in E; congruence|].
+  apply h_get_del_other. assumption.
+Qed.
+Lemma del_add_nil : forall s, del s (add s []) = [].
+Proof. intros s. unfold add, del. cbn. destruct (N.eq_dec s s); [reflexivity|congruence]. Qed.
+Lemma memb_add_nil : forall s, memb s (add s []) = true.
+Proof. intros s. apply memb_In. apply In_add. left. reflexivity. Qed.
+
+Record Q (w : wst) (h : handles) (c : cst) : Prop := {
+  q_known : forall s, In s (known c) <-> In s (w_exists w);
+  q_nofalloc : nofalloc c = [];
+  q_dirty : forall s, In s (dirty c) -> In s (w_dirty w);
+  q_pw : forall s, In s (pendent c) -> In s (written c) -> In s (w_dirty w);
+  q_handle : forall s, In s (pendent c) -> In s (w_open w) -> h_get s h = Some false;
+  q_unl : unl c = false;
+  q_ren : ren_pending c = false;
+  q_md : meta_dirty c = false;
+  q_tmp : tmp_exists c = false;
+  q_meta : meta_exists c = w_meta w }.
+
+Lemma Q0 : Q w0 [] c0.
+Proof. constructor; cbn; intros; try tauto; auto. Qed.
+
+Ltac wproj := cbn [w_exists w_open w_dirty w_meta] in *.
+
+Lemma fs_step_ok : forall seg w h c o w' i,
+  Q w h c -> wf_step w o = Some w' ->
+  exists c', check seg c i (fst (fs_step seg h o)) = inl c' /\ Q w' (snd (fs_step seg h o)) c'.
+Proof.
+  intros seg w h c o w' i HQ Hw.
+  destruct HQ as [K NF D PW HH U RP MD TE ME].
+  destruct o as [s|s|s off len|s|s|s| | |k op n]; cbn [wf_step] in Hw; cbn [fs_step fst snd].
+  - (* FCreate *)
+    destruct (memb s (w_exists w)) eqn:E; [discriminate|]. injection Hw as <-.
+    assert (Ek : memb s (known c) = false).
+    { apply memb_false. apply memb_false in E. rewrite K. exact E. }
+    cbn [check step]. rewrite Ek. proj. rewrite NF, memb_add_nil, !N.eqb_refl. cbn [andb]. proj.
+    rewrite del_add_nil. eexists. split; [reflexivity|].
+    apply memb_false in E.
+    constructor; proj; wproj; auto.
+    + intros x. cbn [In]. rewrite K. tauto.
+    + intros x Hx. sets. apply D. tauto.
+    + intros x Hp Hwr. sets. destruct Hp as [->|Hp]; [tauto|]. apply PW; tauto.
+    + intros x Hp Ho. sets. destruct (N.eq_dec x s) as [->|Hne]; [apply h_get_set_same|].
+      rewrite h_get_set_other by assumption. apply HH; tauto.
+  - (* FOpenWriter *)
+    destruct (memb s (w_exists w)) eqn:E; [|discriminate]. injection Hw as <-.
+    assert (Ek : memb s (known c) = true).
+    { apply memb_In. apply memb_In in E. rewrite K. exact E. }
+    cbn [check step]. rewrite Ek. eexists. split; [reflexivity|].
+    constructor; wproj; auto.
+    intros x Hp Ho. sets. destruct (N.eq_dec x s) as [->|Hne]; [apply h_get_set_same|].
+    rewrite h_get_set_other by assumption. apply HH; tauto.
+  - (* FWrite *)
+    destruct (memb s (w_open w) && memb s (w_exists w)) eqn:E; [|discriminate]. injection Hw as <-.
+    apply andb_true_iff in E. destruct E as [Eo Ee].
+    assert (Ek : memb s (known c) = true).
+    { apply memb_In. apply memb_In in Ee. rewrite K. exact Ee. }
+    cbn [check step]. rewrite Ek, NF. cbn [negb memb existsb]. eexists. split; [reflexivity|].
+    constructor; proj; wproj; auto.
+    + intros x Hx. sets. destruct Hx; auto.
+    + intros x Hp Hwr. sets. destruct Hwr; auto.
+  - (* FSync *)
+    destruct (memb s (w_open w) && memb s (w_exists w)) eqn:E; [|discriminate]. injection Hw as <-.
+    apply andb_true_iff in E. destruct E as [Eo Ee].
+    assert (Ek : memb s (known c) = true).
+    { apply memb_In. apply memb_In in Ee. rewrite K. exact Ee. }
+    destruct (h_get s h) as [[|]|] eqn:EH; cbn [fst snd check step]; rewrite Ek; proj.
+    + (* handle has synced the directory already *)
+      eexists. split; [reflexivity|]. constructor; proj; wproj; auto.
+      * intros x Hx. sets. split; [apply D|]; tauto.
+      * intros x Hp Hwr. sets. split; [auto|].
+        intros ->. rewrite (HH s Hp Eo) in EH. discriminate.
+    + (* first Sync through this handle: directory fsync too *)
+      eexists. split; [reflexivity|]. constructor; proj; wproj; auto; try (intros; contradiction).
+      intros x Hx. sets. split; [apply D|]; tauto.
+    + eexists. split; [reflexivity|]. constructor; proj; wproj; auto.
+      * intros x Hx. sets. split; [apply D|]; tauto.
+      * intros x Hp Hwr. sets. split; [auto|].
+        intros ->. rewrite (HH s Hp Eo) in EH. discriminate.
+  - (* FClose *)
+    destruct (memb s (w_open w)) eqn:E; [|discriminate]. injection Hw as <-.
+    cbn [check step]. eexists. split; [reflexivity|]. constructor; wproj; auto.
+    intros x Hp Ho. sets. destruct Ho as [Ho Hne]. rewrite h_get_del_other by assumption. auto.
+  - (* FDelete *)
+    destruct (memb s (w_exists w)) eqn:E; [|discriminate]. injection Hw as <-.
+    assert (Ek : memb s (known c) = true).
+    { apply memb_In. apply memb_In in E. rewrite K. exact E. }
+    cbn [check step]. rewrite Ek. proj. eexists. split; [reflexivity|].
+    constructor; proj; wproj; auto; try (intros; contradiction).
+    + intros x. split; intros Hx; sets; (split; [apply K|]; tauto).
+    + rewrite NF. reflexivity.
+    + intros x Hx. sets. split; [apply D|]; tauto.
+  - (* FMetaInit *)
+    destruct (w_meta w) eqn:E; [discriminate|]. injection Hw as <-.
+    unfold meta_init_events. cbn [check step tmp_write]. rewrite TE. proj. cbn [andb negb]. proj.
+    eexists. split; [reflexivity|]. constructor; proj; wproj; auto; intros x Hx; contradiction.
+  - (* FMetaCommit *)
+    destruct (w_meta w) eqn:E; [|discriminate]. injection Hw as <-.
+    unfold meta_commit_events. cbn [check step]. unfold meta_write. rewrite ME. cbn [check step]. proj.
+    eexists. split; [reflexivity|]. constructor; proj; wproj; auto.
+  - (* FMark *)
+    destruct k.
+    + injection Hw as <-. cbn [check step]. eexists. split; [reflexivity|]. constructor; auto.
+    + destruct (is_nil (w_dirty w)) eqn:E; [|discriminate]. injection Hw as <-.
+      apply is_nil_true in E.
+      assert (Hd : dirty c = []).
+      { destruct (dirty c) as [|x l] eqn:Ed; [reflexivity|]. exfalso.
+        assert (In x (w_dirty w)) by (apply D; left; reflexivity). rewrite E in H. contradiction. }
+      assert (Hf : forallb (fun s => negb (memb s (written c))) (pendent c) = true).
+      { apply forallb_forall. intros x Hx. apply negb_true_iff. apply memb_false. intros Hwr.
+        assert (In x (w_dirty w)) by (apply PW; assumption). rewrite E in H. contradiction. }
+      cbn [check step]. unfold ack_check. rewrite Hd, Hf, U, RP, MD. cbn.
+      eexists. split; [reflexivity|]. constructor; auto.
+Qed.
+
+Lemma fs_trace_ok_from : forall seg ops w h c i,
+  Q w h c -> wf_ops_from w ops = true ->
+  exists c', check seg c i (fs_trace_from seg h ops) = inl c' /\ nofalloc c' = [].
+Proof.
+  induction ops as [|o ops IH]; intros w h c i HQ Hwf; cbn [fs_trace_from wf_ops_from] in *.
+  - exists c. split; [reflexivity|apply (q_nofalloc _ _ _ HQ)].
+  - destruct (wf_step w o) as [w'|] eqn:Ew; [|discriminate].
+    destruct (fs_step_ok seg w h c o w' i HQ Ew) as (c1 & Hc1 & HQ1).
+    destruct (fs_step seg h o) as [ev h'] eqn:Ef. cbn [fst snd] in *.
+    rewrite check_app, Hc1. eapply IH; eauto.
+Qed.
+
+(* C07_model_traces_ok *)
+Theorem model_traces_ok : forall seg ops, wf_ops ops = true -> discipline seg (fs_trace seg ops) = true.
+Proof.
+  intros seg ops H. unfold discipline, discipline_res, fs_trace.
+  destruct (fs_trace_ok_from seg ops w0 [] c0 0%nat Q0 H) as (c' & Hc & Hn).
+  rewrite Hc. unfold final_ok. rewrite Hn. reflexivity.
+Qed.
